@@ -83,21 +83,24 @@ Theorem C17_args_precedence : forall k tmpl page section,
 Proof. exact args_precedence. Qed.
 Print Assumptions C17_args_precedence.
 
-Theorem C17_regions_frozen_at_first_use : forall regions d tmpl kw kw',
-  assocS d regions = None ->
-  let (a, regions1) := get_cache_kw regions d tmpl kw in
-  a = update tmpl kw /\ fst (get_cache_kw regions1 d tmpl kw') = a.
-Proof. exact regions_frozen. Qed.
-Print Assumptions C17_regions_frozen_at_first_use.
+(* "the backend receives Template cache_args overridden by <%page> cache_* overridden by the section's own": on every
+   render, whatever was asked of the cache before (an invalidate_*() before the first render included) *)
+Theorem C17_render_args_are_its_own : forall regions d tmpl kw,
+  fst (get_cache_kw regions d true tmpl kw) = update tmpl kw.
+Proof. exact render_args_are_its_own. Qed.
+Print Assumptions C17_render_args_are_its_own.
 
-(* "the backend receives ... the section's own [arguments]" is refuted for histories that
-   invalidate before the first render (known finding C17-F2) *)
-Theorem C17_args_after_early_invalidate_refuted :
-  exists tmpl kw d,
-    let regions1 := snd (get_cache_kw [] d tmpl []) in
-    fst (get_cache_kw regions1 d tmpl kw) <> update tmpl kw.
-Proof. exact args_after_early_invalidate_refuted. Qed.
-Print Assumptions C17_args_after_early_invalidate_refuted.
+Theorem C17_invalidate_records_nothing : forall regions d tmpl kw,
+  snd (get_cache_kw regions d false tmpl kw) = regions.
+Proof. exact invalidate_records_nothing. Qed.
+Print Assumptions C17_invalidate_records_nothing.
+
+(* invalidate_body / invalidate_def / invalidate_closure reach the backend with the arguments of the last render *)
+Theorem C17_invalidate_uses_last_render_args : forall regions d tmpl kw kw',
+  let regions1 := snd (get_cache_kw regions d true tmpl kw) in
+  fst (get_cache_kw regions1 d false tmpl kw') = update tmpl kw.
+Proof. exact invalidate_uses_last_render_args. Qed.
+Print Assumptions C17_invalidate_uses_last_render_args.
 
 (* non-vacuity *)
 Example C17_nonvacuous :
